@@ -268,3 +268,32 @@ Theorem C13_unbounded_sorter_circuit_sorts : forall bits L b v,
       Permutation (densl inp b' v') (densl inp b v).
 Proof. exact SortUnboundedHoare.C13_sorter_circuit_sorts_all. Qed.
 Print Assumptions C13_unbounded_sorter_circuit_sorts.
+
+(* ------------------------------------------------------------------ THE PROGRAM LEVEL, first half
+   of the property (Compile/JoinMerge.v, Compile/TSemSemJoin.v): the lowering of
+   `for p in join_iter(a, b) { body }` (tags, zero padding to a power of two, reversed b, bitonic
+   merge, windows over adjacent entries, effects and panics guarded by "joined") agrees with the
+   source semantics Sem.v of the loop — for every element of a in order, the element of b with
+   the same key, body run once for that pair, nothing for the others — as a NODE of the theorem
+   "bit-level semantics = Sem.v" (same interface as the nodes of TSemSemAgg.v, any element types
+   whose first szn(join_ty) bits are the key, any pattern), under the property's precondition:
+   both arrays strictly ascending by the unsigned key.  With the circuit theorems of C01 this is
+   the behaviour of the emitted circuits on all such inputs.  The precondition is necessary
+   (JoinExamples.join_unsorted_differs, join_duplicate_key_differs).  Noted by the proof: the
+   key-0 element next to the zero padding keeps its payload only because the merger never moves
+   a minimal prefix (merger_prefix_fixed) and the padding is placed BEFORE a. *)
+From GV Require Compile.JoinMerge Compile.TSemSemJoin.
+
+Theorem C13_for_join_loop_agrees_with_the_source_semantics :
+  ltac:(let T := type of TSemSemJoin.join_loop_node_gpat in exact T).
+Proof. exact TSemSemJoin.join_loop_node_gpat. Qed.
+Print Assumptions C13_for_join_loop_agrees_with_the_source_semantics.
+
+Theorem C13_merger_never_moves_a_minimal_prefix :
+  ltac:(let T := type of @JoinMerge.merger_prefix_fixed in exact T).
+Proof. exact @JoinMerge.merger_prefix_fixed. Qed.
+Print Assumptions C13_merger_never_moves_a_minimal_prefix.
+
+Theorem C13_sortedness_precondition_is_necessary :
+  ltac:(let T := type of TSemSemJoin.JoinExamples.join_unsorted_differs in exact T).
+Proof. exact TSemSemJoin.JoinExamples.join_unsorted_differs. Qed.
